@@ -356,8 +356,10 @@ fn impl_object_for_enum(ast: &DeriveInput, data: &DataEnum) -> SynStream {
 
         quote! {
             impl #impl_generics pdf::object::Object for #id #ty_generics #where_clause {
-                fn from_primitive(p: pdf::primitive::Primitive, _resolve: &impl pdf::object::Resolve) -> pdf::error::Result<Self> {
+                fn from_primitive(p: pdf::primitive::Primitive, resolve: &impl pdf::object::Resolve) -> pdf::error::Result<Self> {
                     match p {
+                        // the value may be stored as an indirect object
+                        pdf::primitive::Primitive::Reference(r) => Self::from_primitive(pdf::object::Resolve::resolve(resolve, r)?, resolve),
                         pdf::primitive::Primitive::Integer(i) => {
                             match i {
                                 #( #parts, )*
@@ -393,8 +395,10 @@ fn impl_object_for_enum(ast: &DeriveInput, data: &DataEnum) -> SynStream {
 
         quote! {
             impl #impl_generics pdf::object::Object for #id #ty_generics #where_clause {
-                fn from_primitive(p: pdf::primitive::Primitive, _resolve: &impl pdf::object::Resolve) -> pdf::error::Result<Self> {
+                fn from_primitive(p: pdf::primitive::Primitive, resolve: &impl pdf::object::Resolve) -> pdf::error::Result<Self> {
                     match p {
+                        // the value may be stored as an indirect object
+                        pdf::primitive::Primitive::Reference(r) => Self::from_primitive(pdf::object::Resolve::resolve(resolve, r)?, resolve),
                         pdf::primitive::Primitive::Name(name) => {
                             match name.as_str() {
                                 #( #parts, )*
